@@ -188,6 +188,7 @@ pub fn stmt_kind(s: &Stmt) -> &'static str {
         Stmt::Cont => "CONT",
         Stmt::ListCmd(..) => "LIST",
         Stmt::DeleteCmd(..) => "DELETE",
+        Stmt::FromCmd(..) => "RANGEFROM",
         Stmt::Raw(_) => "RAW",
     }
 }
@@ -1763,7 +1764,7 @@ impl Ref {
                 }
                 Ok(Flow::Next)
             }
-            Stmt::DeleteCmd(..) | Stmt::Raw(_) => {
+            Stmt::DeleteCmd(..) | Stmt::FromCmd(..) | Stmt::Raw(_) => {
                 self.grey("statement not interpreted by the reference model");
                 Ok(Flow::Next)
             }
